@@ -209,7 +209,10 @@ int main(int argc, char **argv)
 		x->t = tid_of(x->ds->ds_timer_refs);
 		lg(E_CREATE, x->t, x->ds->ds_timer_refs->du_timer_flags, 0, 0, 0, 0);
 		dispatch_source_set_event_handler(x->ds, ^{
-			lg(E_HANDLER, x->t, dispatch_source_get_data(x->ds), 0, 0, 0, 0);
+			// the count the handler is given, and the three clocks read after it (upper bounds of the reading that
+			// _dispatch_source_timer_data made for this invocation)
+			unsigned long hdata = dispatch_source_get_data(x->ds);
+			lg(E_HANDLER, x->t, hdata, _dispatch_uptime(), _dispatch_monotonic_time(), _dispatch_get_nanoseconds(), 0);
 			if (below(20) == 0) usleep(3000); // a lagging handler: the next fire finds unconsumed data
 		});
 		if (below(5)) set_timer(x, mk((int)below(3), (int64_t)below(120 * MS)), ITV[below(sizeof ITV / sizeof *ITV)], below(3) * MS);
